@@ -359,6 +359,7 @@ func init() {
 		},
 		"verifSymbolic": func(in *Interp, fr *frame, a []value) value { return true },
 		"verifAbstractLen": verifAbstractLenAPI, // intr_C29.go
+		"verifSchedWindow": verifSchedWindowAPI, // intr_C25b.go
 		"verifPoolReuse":   verifPoolReuseAPI,   // intr_C30c.go
 		// verifTime(ns): a model instant (monotonic form) at ns nanoseconds
 		"verifTime": func(in *Interp, fr *frame, a []value) value {
